@@ -21,6 +21,7 @@ import functools
 import hashlib
 import json
 import os
+import signal
 import subprocess
 
 from vp import common
@@ -608,12 +609,34 @@ def oracle_collect(ctx, book, world, case, roots, res):
 # --------------------------------------------------------------------------
 # running one case
 
+class Hang(Exception):
+    '''the implementation did not come back within the time limit'''
+
+
+class time_limit:
+    def __init__(self, seconds):
+        self.seconds = seconds
+
+    def _fire(self, *_):
+        raise Hang()
+
+    def __enter__(self):
+        self.old = signal.signal(signal.SIGALRM, self._fire)
+        signal.setitimer(signal.ITIMER_REAL, self.seconds)
+
+    def __exit__(self, *exc):
+        signal.setitimer(signal.ITIMER_REAL, 0)
+        signal.signal(signal.SIGALRM, self.old)
+        return False
+
+
 def collect_real(roots):
     from valjean.cambronne import common as cam
     saved = cam.run_job
     cam.run_job = lambda *_a, **_k: list(roots)
     try:
-        return cam.collect_tasks('job.py', [], {})
+        with time_limit(2):
+            return cam.collect_tasks('job.py', [], {})
     except Exception as exc:  # noqa
         return exc
     finally:
@@ -627,7 +650,11 @@ def run_case(ctx, case, outroot, judge=True):
     book = Book(case, world)
     results = []
     for k, op in enumerate(case['ops']):
-        res = run_op(world, k, op)
+        try:
+            with time_limit(2):
+                res = run_op(world, k, op)
+        except Hang as exc:
+            res = exc
         n = nslots(case, op)
         if res is None:
             world.slots += [None] * n
@@ -799,7 +826,7 @@ def c_rreq(req):
             + clist([cn(a) for a in req['deps']]) + ' ' + clist([cn(a) for a in req['soft']]) + ')')
 
 
-EXC = {'ValueError': 0, 'chain': 7}
+EXC = {'ValueError': 0, 'chain': 7, 'Hang': 6}
 
 
 def c_named(val):
